@@ -97,6 +97,12 @@ CLAIMED = {
         text='The age is a solver variable over the whole covered range (every interpolation interval is a path), so "defined, finite, positive" and the grade identity hold for every age, not for sampled ones; '
              'spellings are symbolic strings; order of grades for adjacent marks is an obligation over a symbolic mark. Finite facts (grade 1.0 at factor-1 ages, clamping past the last column, athlon bands) are exhaustive concrete runs, reported as such.',
         note='Float abstraction is sound for order/sign, the grade clause is a term identity; strictness of "grades higher" is not proved. One known finding (2015 table: no women\'s PV factors after 90).'),
+    'C15': dict(
+        category='model_checking', design_ref='DESIGN.md section 3 C15',
+        technique='symbolic execution of the real distance-interpolation fallback (factor and best) with a symbolic integer distance rendered as digit cells; reals with monotone rounding; uninterpreted quotient with cross-multiplied bound facts; z3 with cvc5 fallback',
+        text='Per pair of neighbouring running rows the distance is a solver integer over the whole interior of the segment, so betweenness of the factor and of the best time, and "not decreasing from d to d+1", hold for every whole metre (and every whole-kilometre N K code) at once; '
+             'both ends of the table are separate segments (20 m .. first row, last row .. 400 km).',
+        note='Float abstraction with 1e-12 tolerance; ages are sampled (47; thorough 23/47/66.5/91) because the age axis is C14; segments whose bracketing bests have inverted speeds are excluded from the increasing clause (listed in evidence). One known finding (mile rows located by table km but interpolated with a 1609 m mile).'),
 }
 
 NOT_APPLICABLE = {
